@@ -80,7 +80,7 @@ class PureMachine(MachineMixin, RuleBasedStateMachine):
         self.cls.add("family=" + fam)
 
     @precondition(lambda self: len(self.pool) > 0)
-    @rule(i=st.integers(0, 7), kind=st.sampled_from(["uniform", "uniform", "face", "optimum", "ball", "reuse", "reuse"]),
+    @rule(i=st.integers(0, 7), kind=st.sampled_from(["uniform", "uniform", "face", "optimum", "ball", "reuse", "reuse", "near"]),
           u=st.lists(unit, min_size=6, max_size=6), as_list=st.booleans(), fid=st.integers(-1, 2),
           pick=st.integers(0, 10 ** 6), buffered=st.sampled_from([False, False, True]))
     def evaluate(self, i, kind, u, as_list, fid, pick, buffered):
@@ -93,12 +93,19 @@ class PureMachine(MachineMixin, RuleBasedStateMachine):
         fam, key, p = self.pool[i]
         lo, hi = bench.bounds(p)
         n = len(lo)
-        if kind == "reuse":
+        near = False
+        if kind in ("reuse", "near"):
             cands = [pt for (f2, k2, pt) in self.used if f2 == fam and k2 == key]
             if not cands:
                 kind = "uniform"
             else:
                 y = list(cands[pick % len(cands)])
+                if kind == "near":
+                    # a different point a hair away from one used before (1e-16 .. 1e-9 of the side)
+                    step = 10.0 ** -(9 + pick % 8)
+                    y = [min(b, max(a, v + step * (b - a) * (1 if (pick >> k) % 2 else -1)))
+                         for k, (v, a, b) in enumerate(zip(y, lo, hi))]
+                    near = True
         if kind == "uniform":
             y = [a + t * (b - a) for a, b, t in zip(lo, hi, u)]
         elif kind == "face":
@@ -161,6 +168,15 @@ class PureMachine(MachineMixin, RuleBasedStateMachine):
             if float(v2) != float(val):
                 fail(who + "value %r through the re-used container, %r for the same point in a new array" %
                      (float(val), float(v2)))
+        if near and fam != "grishagin":
+            # a point next to an old one has its own value: a brand-new instance of the member must agree
+            fresh = bench.construct(fam, eval(key))
+            h3 = FunctionValue(FunctionType.CONSTRAINT, fid) if (fam == "stronginC3" and fid >= 0) else FunctionValue()
+            v3 = fresh.Calculate(Point(np.array(y, dtype=np.double), []), h3).value
+            self.cls.add("near-an-earlier-point")
+            if float(v3) != float(val):
+                fail(who + "value %r on this instance, %r on a brand-new instance of the same member (the point is "
+                     "within 1e-9 of the side of a point evaluated earlier)" % (float(val), float(v3)))
         mk = (fam, key, fid, np.array(y, dtype=np.double).tobytes())
         if mk in self.model:
             if float(val) != self.model[mk]:
